@@ -214,6 +214,10 @@ func checkC13(tier string) int {
 		},
 		gates:    map[string]int{"ok:WITHDRAW_REWARD": 1},
 		nontriv:  func(blk *hist.Block) bool { return mon.RewardEvent(blk) != "" },
+		tune: func(cfg *drive.Cfg, i int) {
+			// the boxes record, before every BeginBlock, what a freshly started node would pull
+			cfg.Envs = [][]string{{"OLBOX_TWINPULL=1"}, {"OLBOX_TWINPULL=1"}}
+		},
 		restarts: true,
 		jumps:    true,
 		absents:  true,
